@@ -324,45 +324,30 @@ def r4(ctx):
               f"the policy is consulted under `{U(iff.test) if iff is not None else '?'}`: some selections bypass it (e.g. the first plate of a batch)")
     kw = kwargs(pc[0])
     ctx.need("batch_plates" in kw and "unobserved_plates" in kw, f"{f.site()}: the policy call does not pass batch_plates= and unobserved_plates= by keyword")
-    # canonical values of the two arguments at the call: the statements before the policy `if` are a straight line of builders
-    top = [st for st in f.node.body]
-    idx = next((i for i, st in enumerate(top) if iff is not None and (st is iff or iff in list(ast.walk(st)))), None)
-    ctx.need(idx is not None, f"{f.site()}: policy call is not under a top-level if")
-    pre = ast.FunctionDef(name="_pre", args=f.node.args, body=[st for st in top[:idx] if not (isinstance(st, ast.If) and _is_default_guard(st))] +
-                          [ast.Return(value=ast.Tuple(elts=[kw["batch_plates"], kw["unobserved_plates"]], ctx=ast.Load()))], decorator_list=[], lineno=0, col_offset=0)
-    try:
-        ps = B.paths(pre)
-    except B.Unsupported as e:
-        raise AnalysisError(f"{f.site()}: {e} - the plate lists handed to the policy are built outside the recognised collection idioms")
-    ctx.need(len(ps) == 1 and isinstance(ps[0][1], ast.Tuple), f"{f.site()}: the statements before the policy call are not a straight line")
-    penv = ps[0][2]
-    bp, up = [penv.get(x.id, x) if isinstance(x, ast.Name) else x for x in ps[0][1].elts]
-
-    def membership(v, want_src, sorted_ok):
-        """v is [p for p in screen.plates if <want>] (optionally sorted by plate id)"""
-        if isinstance(v, ast.Call) and U(v.func) == "sorted" and sorted_ok and v.args:
-            key = {k.arg: U(k.value).replace(" ", "") for k in v.keywords}
-            if set(key) - {"key"} or (key.get("key") and not key["key"].endswith(".plate_id")):
-                return False
-            v = v.args[0]
-            if isinstance(v, ast.Name) and v.id in penv:
-                v = penv[v.id]
-        g = _single_gen(v) if isinstance(v, ast.ListComp) else None
-        if g is None or U(g[1]) != "screen.plates" or not isinstance(g[0], ast.Name) or U(g[3]) != g[0].id:
-            return False
-        pv = g[0].id
-        got = frozenset()
-        for t in g[2]:
-            b = N.b(t)
-            got |= frozenset(b[1]) if b[0] == "and" else frozenset([b])
-        w = N.b(parse_expr(want_src.format(pv=pv)))
-        want = frozenset(w[1]) if w[0] == "and" else frozenset([w])
-        return got == want
-    bp_ok = membership(bp, "{pv}.plate_id in batch_plate_ids", False)
-    cand_ok = membership(up, "(not {pv}.is_observed) and ({pv}.plate_id not in batch_plate_ids)", True)
-    ctx.check("R4", f"{f.site()}::policy-arguments", bp_ok and cand_ok,
+    # canonical values of the two arguments just before the statement holding the policy call, for a batch list that is
+    # None / empty / non-empty (the same case analysis as C06: a defaulted or aliased batch list is read through)
+    from rules import C06
+    top_stmt = pc[0]
+    while par.get(top_stmt) is not None and par.get(top_stmt) is not f.node:
+        top_stmt = par[top_stmt]
+    Nn = Norm(strict=False)
+    want_unobs = Nn.b(parse_expr("not P.is_observed"))
+    want_out = Nn.b(parse_expr(f"P.plate_id not in {C06.BATCH}"))
+    want_in = Nn.b(parse_expr(f"P.plate_id in {C06.BATCH}"))
+    up_cases = C06.candidate_cases(ctx, f, top_stmt, kw["unobserved_plates"])
+    bp_cases = C06.candidate_cases(ctx, f, top_stmt, kw["batch_plates"])
+    bad = []
+    for case, (root, filt, keys) in up_cases.items():
+        want = {want_unobs, want_out} if case == "nonempty" else {want_unobs}
+        if root != "screen.plates" or set(filt) != want:
+            bad.append(f"unobserved_plates (batch {case}): `{root}` under {len(filt)} filter(s)")
+    for case, (root, filt, keys) in bp_cases.items():
+        want = {want_in} if case == "nonempty" else {("false",)}
+        if root != "screen.plates" or set(filt) != want:
+            bad.append(f"batch_plates (batch {case}): `{root}` under {sorted(map(str, filt))[:2]}")
+    ctx.check("R4", f"{f.site()}::policy-arguments", not bad,
               "policy receives the batch plates and the unobserved plates not in the batch",
-              f"the policy is not given (plates whose id is in the batch, unobserved plates not in the batch): batch_plates=`{B.text(bp)[:120]}`, unobserved_plates=`{B.text(up)[:160]}`")
+              f"the policy is not given (plates whose id is in the batch, unobserved plates not in the batch): {'; '.join(bad)}")
 
 
 def _is_default_guard(st):
